@@ -389,6 +389,9 @@ int64_t cmi_pool_acquire_inner(struct cmb_resourcepool *rpp,
                                const uint64_t req_amount,
                                const bool preempt)
 {
+    /* Waiting since now, also if it takes several rounds at the guard */
+    const double waiting_since = cmb_time();
+
     cmb_assert_release(rpp != NULL);
     cmb_assert_release(req_amount > 0u);
     cmb_assert_debug(rpp->in_use <= rpp->capacity);
@@ -528,7 +531,10 @@ int64_t cmi_pool_acquire_inner(struct cmb_resourcepool *rpp,
 
         /* Wait at the front door until some more becomes available  */
         cmb_assert_debug(rem_claim > 0u);
-        const int64_t sig = cmb_resourceguard_wait(&(rpp->guard), is_available, NULL);
+        const int64_t sig = cmi_resourceguard_wait_since(&(rpp->guard),
+                                                         is_available,
+                                                         NULL,
+                                                         waiting_since);
         if ((sig != CMB_PROCESS_SUCCESS)
              && (cmb_resourcepool_held_by_process(rpp, caller) == 0u)) {
             /*
